@@ -28,7 +28,30 @@ def mode_of(order_repr: str | None):
     return m.group(1) if m else None
 
 
-def check_layout(ctx, rule, res, only_functions=None, label="", row_order=None):
+class _OnlyViolations:
+    """View of a context that keeps definite violations and drops everything else (used on paths the analysis abandoned)."""
+
+    def __init__(self, ctx):
+        self._ctx = ctx
+
+    def violated(self, *a, **kw):
+        return self._ctx.violated(*a, **kw)
+
+    def require(self, cond, rule, construct, detail_ok="", detail_bad="", loc="", nontrivial=True, derivation=None):
+        if not cond:
+            self._ctx.violated(rule, construct, detail_bad or detail_ok, loc, derivation)
+        return cond
+
+    def ok(self, *a, **kw):
+        pass
+
+    def undecided(self, *a, **kw):
+        pass
+
+
+def check_layout(ctx, rule, res, only_functions=None, label="", row_order=None, only_violations=False):
+    if only_violations:
+        return check_layout(_OnlyViolations(ctx), rule, res, only_functions, label, row_order)
     """Emits obligations for every pack / zip / unpack / reshape event of one path. Returns counts.
     row_order: callable returning the verdict of the instance runs on 'the rows of the Jacobian come out in the order of the
     cotangents' (asked when the order of a sequence of row blocks packed along dim 0 is unknown to the symbolic run)."""
@@ -121,6 +144,10 @@ def check_layout(ctx, rule, res, only_functions=None, label="", row_order=None):
             elif e.get("how") == "as_strided":
                 ctx.violated(rule, kk, f"`{e['text'][:80]}` re-reads the row-major block of values through the strides {e.get('strides')}: it equals view(shape) only for the contiguous strides of that "
                              "shape — for a non-contiguous key (a transposed weight: shape (2, 3), strides (1, 2)) entry (i, j) receives the value that belongs to another entry", e["loc"])
+            elif (mt := re.match(r"^\['(rows|-1)\+shape\((.*?)\)\+(.+)'\]$", desc)) and mt.group(3) != "1" and any("pack" in l or "cat" in l or "'same'" in l for l in (e.get("layout") or [])):
+                ctx.violated(rule, kk, f"`{e['text'][:80]}` views the column axis — blocks laid side by side, one per key — as (…the key's axes…, {mt.group(3)}): the index that selects the block "
+                             "becomes the fastest-varying one, so each slice along it takes every n-th column of the matrix instead of one key's block (right only when there is a single block "
+                             "or every key has one element)", e["loc"])
             elif RESHAPE_OK.match(desc):
                 ctx.ok(rule, kk, f"row-major (un)flattening {desc}", e["loc"], nontrivial=False)
             else:
